@@ -50,8 +50,9 @@ def run(ctx):
             same_term(ob, x, T.raw_op('INTCAST', c), 'unmarked component is int(text) in base 10', fconv.where)
             marks = set()
             for cnd in cs:
-                if T.is_op(cnd, 'NOT'):
-                    marks |= _marker_disjuncts(cnd[2])
+                for part in (cnd[2:] if T.is_op(cnd, 'AND') else [cnd]):
+                    if T.is_op(part, 'NOT'):
+                        marks |= _marker_disjuncts(part[2])
             want = {T.eq(T.const("'"), last), T.eq(T.const('h'), last)}
             ob.require(want <= marks and marks <= want | {T.eq(T.const('H'), last)},
                        "the marker test recognises exactly ' and h (equivalently)", fconv.where,
